@@ -11,6 +11,8 @@ CHECKS = {
          "as C01; sizes/mtimes/ids from small pools", TECH + " (seeded history + restart vs reference model)", "6/C02"),
  "C03": ("exploration", "Rpms/Modules/ExtraFiles manifests produced by histories of add calls (refused calls interleaved) are persisted at arbitrary points; the node restarts from SimFS and keeps adding to the restarted object; payload and compose section compared with the C12 reference model, re-dump byte-identical.",
          "reference model = documented layout with an independent NEVRA / module-UID parser", TECH + " (history + restart vs reference model)", "6/C03"),
+ "C04": ("exploration", "Persistence invariant of the simulated treeinfo / discinfo nodes: API histories (permuted variant/path/image/checksum insertion, dashed top-level UIDs, child variants of every type, layered releases, src trees), dump with and without main_variant, restart by path / handle / loads, comparison with a reference model, byte-identical re-dump; every .treeinfo that reaches SimFS is additionally parsed by an independent minimal INI reader.",
+         "text restricted to what the INI syntax can carry, as the property's quantifier states; integer timestamps only for the byte-identical oracle", TECH + " (seeded history + restart vs reference model, independent INI reader)", "6/C04"),
  "C09": ("exploration", "Histories of Images.add over a small identity pool (each identity attribute varied individually, equal and different checksums, same and different cells) under header versions below/at/above 1.1, with dump/restart and colliding pairs injected into stored documents of version 1.0/1.1/1.2; invariants: refusal leaves the manifest unchanged, exactly the addressed cell gains the image, no collision in any >=1.1 live or stored manifest, collision documents rejected on load iff >=1.1, identify_image(object)==identify_image(dict).",
          "identity function and collision scan re-implemented independently; two legacy-exemption consequences are listed as known findings", TECH + " (refused-call + stored-damage histories vs model)", "6/C09"),
  "C10": ("exploration", "Refusal of every non-binary architecture class on Images.add / Rpms.add inside histories (state unchanged), re-filing of source images / source RPMs when the node restarts on a stored manifest down-converted to images 1.0/1.1 or rpms 0.3 with a 'src' key, and the invariant that no architecture key of any live object or stored payload is outside the binary subset.",
@@ -19,6 +21,10 @@ CHECKS = {
          "forests of <= 7 variants, depth <= 3; adds the property is silent about (re-adding an already filed variant elsewhere) end the trust in the model for that run instead of being judged", TECH + " (refused-call histories, forest-walk invariants)", "6/C11"),
  "C12": ("exploration", "Sequences of add calls on Rpms / Modules / ExtraFiles with valid and invalid values of every parameter, compared step by step (deep equality of the whole mapping) with a reference model; refused calls must raise ValueError/TypeError and change nothing; dump_for_tree against base paths that are, are not, or only textually prefix the stored paths.",
          "argument families where the documented grammar does not decide (e.g. non-numeric text before a colon) are accepted either way and the model follows the observation", TECH + " (refused-call histories vs reference model)", "6/C12"),
+ "C16": ("exploration", "(a) Checksums.add computing through the SimFS seam for file sizes straddling multiples of the 1 MiB chunk, all hashlib-guaranteed algorithms and decorated relative paths, with the read(n) sequence recorded; (b) EIO/EACCES on open and EIO at an offset inside chunk 0/1/2 must raise and leave the table unchanged; (c) stored [checksums] entries rewritten as bare digests of recognised/unrecognised lengths in every position before a restart - no path may come back with another entry's value; (d) Image.add_checksum histories with equal, different and empty values.",
+         "no short reads are injected (a BufferedReader over a regular file never produces them); shake_* algorithms (need a length) are outside", TECH + " (I/O seam with read faults, stored-document damage + restart)", "6/C16"),
+ "C17": ("exploration", "Invariant on every .treeinfo that reaches SimFS in histories where variants are added and removed between dumps, main_variant changes from dump to dump, float and integer timestamps alternate and platforms do or do not list the tree arch: [general] parsed by an independent INI reader must mirror release/tree/main-variant facts incl. src fallbacks; plus: the compatibility sections alone are loaded as a pre-productmd file and must show the same arch/family/version/timestamp/variant.",
+         "weakest simulation content of all claimed properties: a function of the tree and one argument, checked on files the histories write anyway", TECH + " (file invariant over seeded histories)", "6/C17"),
  "C18": ("fault_enumeration", "Seeded simulated runs build a metadata object by an API history, persist it to the simulated disk, mutate it, and then enumerate every validator invocation of one dump (one injected failure at a time) plus real invalid values at nested locators; after each failed dump the destination bytes are compared with the last good copy (or its absence); then the fault is removed and the dump must succeed.",
          "trusts SimFS to model truncate-on-open as POSIX does; dump to an already open handle is out of scope", TECH + " (validator-fault enumeration on a simulated disk)", "6/C18"),
 }
